@@ -126,16 +126,24 @@ pub fn corr(ctx: &mut Ctx) {
             ctx.mark_nontrivial();
             let mut s = ProbMinHash2::<u64, FnvHasher>::new(m, INIT);
             ctx.op(&format!("pmh2 new a {} {}", m, INIT));
+            // weight classes of the history and of the stream after the reset: ordinary, extremely small (an item may
+            // then enter only a few slots: the tracker maximum stays at its initial value), huge, mixed; the stream
+            // after the reset may be EMPTY
+            let wclass_h = (c / 3) % 4;
+            let wclass_x = (c / 12) % 4;
+            let wgt = |cls: u64, i: usize| -> f64 { match cls { 0 => 0.5 + (i % 7) as f64, 1 => [1e-308, 3e-308, 7e-307][i % 3], 2 => 1e300 / (1.0 + i as f64), _ => if i % 2 == 0 { 1e-308 } else { 2.0 } } };
+            ctx.count(&format!("pmh2 reset: history weights class {}", wclass_h));
             for (i, x) in hist.iter().enumerate() {
-                let w = 0.5 + (i % 7) as f64;
+                let w = wgt(wclass_h, i);
                 s.hash_item(*x, w);
                 ctx.op(&format!("pmh2 item a {}:{}:{}", x, fhx(w), hx(seed_fnv(*x))));
             }
             s.reset();
             ctx.op("pmh2 reset a");
             let mut f = ProbMinHash2::<u64, FnvHasher>::new(m, INIT);
-            for (i, x) in xs.iter().enumerate() {
-                let w = 1.0 + (i % 5) as f64 * 0.25;
+            let xs_after: Vec<u64> = if c % 5 == 4 { vec![] } else { xs.clone() };
+            for (i, x) in xs_after.iter().enumerate() {
+                let w = if wclass_x == 0 { 1.0 + (i % 5) as f64 * 0.25 } else { wgt(wclass_x, i) };
                 s.hash_item(*x, w);
                 f.hash_item(*x, w);
                 ctx.op(&format!("pmh2 item a {}:{}:{}", x, fhx(w), hx(seed_fnv(*x))));
